@@ -5,8 +5,8 @@ package main
 
 import (
 	"fmt"
-	"os"
 	"math/rand"
+	"os"
 	"sort"
 	"strings"
 	"sync"
